@@ -56,7 +56,8 @@ class Rig:
         self.vt = VirtualTime()
         canopen.lss.time = self.vt
         self.bus = simbus.SimBus(mode="inline")
-        self.net, self.st = simbus.make_network(self.bus, "master", via=via)
+        # every fourth rig: an interface without receive timestamps (every frame is handed over with timestamp 0)
+        self.net, self.st = simbus.make_network(self.bus, "master", via=via, zero_ts=Rig.created % 4 == 1)
         self.lss = self.net.lss
         self.lss.RESPONSE_TIMEOUT = 0.0005
         self.slave = None
@@ -135,7 +136,12 @@ def commission_two(ctx, rng):
             rig.close()
             return
         kept = list(found)
-        rig.lss.configure_node_id(rng.randint(1, 127))
+        given = rng.randint(1, 127)
+        if rng.random() < 0.5:
+            rig.lss.inquire_node_id()
+        rig.lss.configure_node_id(given)
+        if rig.slave.pending_node_id != given or rig.lss.inquire_node_id() != given:
+            ctx.violation("configure-node-id-not-applied", f"first device holds node id {rig.slave.pending_node_id} after configure_node_id({given})", case)
         rig.lss.store_configuration()
         rig.lss.send_switch_state_global(rig.lss.WAITING_STATE)
         second = LssSlave(idb)
@@ -147,6 +153,18 @@ def commission_two(ctx, rng):
                           f"for identity {[hex(p) for p in idb]} (first device {[hex(p) for p in ida]} is configured now)", case)
         elif second.state != CONFIGURATION:
             ctx.violation("fast-scan-slave-not-in-configuration", f"second scan succeeded but the device is in state {second.state}", case)
+        if ok2 and second.state == CONFIGURATION:
+            # the second device gets a node id too: a fresh one, or the one just used (it replaces the first device)
+            nid2 = given if rng.random() < 0.5 else rng.randint(1, 127)
+            case["second_node_id"] = "same" if nid2 == given else "other"
+            ctx.count("service_calls")
+            ctx.case(("configure-node-id", "second-device", case["second_node_id"]), nontrivial=True)
+            rig.lss.configure_node_id(nid2)
+            if second.pending_node_id != nid2:
+                ctx.violation("configure-node-id-not-applied:second-device", f"second device holds node id {second.pending_node_id} after configure_node_id({nid2}) "
+                              f"(the first device was given {given})", case)
+            elif rig.lss.inquire_node_id() != nid2:
+                ctx.violation("inquire-node-id", f"inquire_node_id() != {nid2} on the second device", case)
         if list(found) != kept:
             ctx.violation("fast-scan-result-changed-later", f"the identity returned by the first scan changed to {[hex(p) for p in found]} during the second scan", case)
         for mech, msg in second.violations:
